@@ -338,6 +338,9 @@ func runC08(ctx *core.Ctx, idx int) *core.Result {
 	if idx%100 == 2 {
 		c08Directed(ctx, res)
 	}
+	if idx%400 == 7 {
+		c08OperatorChain(ctx, res, r)
+	}
 	res.Sample(map[string]any{"seed_patch": core.Trunc(seed, 300), "mutations_per_case": c08PerCase})
 	return res
 }
@@ -509,6 +512,37 @@ func c08ManyImports(ctx *core.Ctx, res *core.Result, r *rand.Rand) {
 	want := map[int]string{0: fmt.Sprintf("m%d.New(1)", m-1), 1: "legacy(2)", 2: "modern(2)"}[shape]
 	if cr.Exit != 0 || !strings.Contains(string(b), want) {
 		res.Violate("C08/not-rewritten/many-imports", fmt.Sprintf("exit %d, %q not in the file: %s", cr.Exit, want, core.Trunc(string(cr.Stderr), 300)), rep)
+	}
+}
+
+// c08OperatorChain: 'x + y' -> 'y + x' on a sum of 1000 operands (a 4 KB file). Every prefix of the chain is an instance,
+// each nested in the next. Memory is measured, not limited (peak resident set from the child's rusage): a 4 KB input that
+// needs more than 300 MiB exhausts memory on a small input.
+func c08OperatorChain(ctx *core.Ctx, res *core.Result, r *rand.Rand) {
+	n := 1000
+	op := []string{"+", "*", "&&", "|"}[r.Intn(4)]
+	pt := fmt.Sprintf("@@\nvar x, y expression\n@@\n-x %s y\n+y %s x\n", op, op)
+	src := "package p\n\nvar v = " + strings.Repeat("a "+op+" ", n-1) + "a\n"
+	dir, _ := os.MkdirTemp(ctx.Tmp, "c08chain")
+	defer os.RemoveAll(dir)
+	os.WriteFile(filepath.Join(dir, "m.patch"), []byte(pt), 0o644)
+	os.WriteFile(filepath.Join(dir, "t.go"), []byte(src), 0o644)
+	cr := ctx.RunCLI(core.CLIOpts{Dir: dir, Args: []string{"-p", "m.patch", "t.go"}})
+	res.Evals++
+	res.Ob("operator-chain-runs", 1)
+	res.Ob("operator-chain-peak-rss-mib", int(cr.MaxRSSKB/1024))
+	res.Sig("operator-chain", op)
+	rep := map[string]string{"p.patch": pt, "in.go": core.Trunc(src, 400)}
+	if cc := cr.CrashClass(); cc != "" {
+		res.Violate("C08/"+cc+"/operator-chain", core.Trunc(string(cr.Stderr), 600), rep)
+		return
+	}
+	if cr.Exit != 0 {
+		res.Violate("C08/not-rewritten/operator-chain", fmt.Sprintf("exit %d: %s", cr.Exit, core.Trunc(string(cr.Stderr), 300)), rep)
+		return
+	}
+	if cr.MaxRSSKB > 300*1024 {
+		res.Violate("C08/memory/operator-chain", fmt.Sprintf("rewriting a chain of %d operands (%d bytes) took a peak resident set of %d MiB and %d ms of CPU time", n, len(src), cr.MaxRSSKB/1024, cr.CPUMillis), rep)
 	}
 }
 
